@@ -43,6 +43,11 @@ SameObservable(s, j, texSuper) ==
   /\ s.strays = p.strays /\ s.junk = p.junk
   /\ IF texSuper THEN s.tex \subseteq p.tex ELSE s.tex = p.tex
 
+SameButStrays(s, j) ==
+  LET p == StateOf(j) IN
+  /\ s.live = p.live /\ s.dirs = p.dirs /\ s.items = p.items /\ s.orph = p.orph
+  /\ p.strays \subseteq s.strays /\ s.junk = p.junk /\ s.tex = p.tex
+
 ExitOK(spec, obs) == spec = "any" \/ spec = obs
 
 InitT ==
@@ -98,8 +103,11 @@ StepRestore(j) ==
                                   /\ ls[i].d = lab.listing[i].d /\ ls[i].n = lab.listing[i].n
        /\ IsListing(cfg, St, f, lab.td, lab.sort, ls)
        /\ LET r == RestoreApply(cfg, St, ls, ReplyOf(lab.reply), lab.ow) IN
-            /\ (r.undef \/ (SameObservable(r.st, j.post, FALSE) /\ ExitOK(r.out.exit, lab.exit)))
-            /\ SetSt(IF r.undef THEN StateOf(j.post) ELSE r.st) /\ out' = r.out
+            \* sundef (an info without payload was selected): the info file may be gone or not, nothing else may differ
+            /\ \/ r.undef
+               \/ r.sundef /\ SameButStrays(r.st, j.post)
+               \/ ~r.sundef /\ SameObservable(r.st, j.post, FALSE) /\ ExitOK(r.out.exit, lab.exit)
+            /\ SetSt(IF r.undef \/ r.sundef THEN StateOf(j.post) ELSE r.st) /\ out' = r.out
 
 StepEmpty(j) ==
   LET lab == j.lab
